@@ -6,7 +6,7 @@ From V Require Import Gen.Params Lib.Hex Wire.Varint Wire.Headers Wire.HeadersPr
      PktProt.PktNum PktProt.PktNumProofs PktProt.Protect PktProt.ProtectProofs PktProt.ProtectExamples
      UFrames.Model UFrames.Proofs UFrames.ProofsLength Wire.FramesBase Wire.Frames
      PktProt.InitialProtect
-     UPacker.Model UPacker.ProofsSize UPacker.ProofsFlight UPacker.ProofsDecrypt UPacker.ProofsRandom UPacker.ProofsWire UPacker.ProofsInitialKeys UPacker.ProofsFrames UPacker.ProofsTop.
+     UPacker.Model UPacker.ProofsSize UPacker.ProofsFlight UPacker.ProofsDecrypt UPacker.ProofsRandom UPacker.ProofsWire UPacker.ProofsInitialKeys UPacker.ProofsFrames UPacker.ProofsFramesRandom UPacker.ProofsTop.
 Import ListNotations.
 Open Scope Z_scope.
 
@@ -216,6 +216,23 @@ Theorem C10_random_split_exact : forall fuel hdr off rem maxSize ps rfs idx rf,
   popLoop (S fuel) off rem (initialBudget hdr off maxSize (0, ps) (BRandom rfs) idx - hdr) = ([(off, n)], off + n, rem - n).
 Proof. exact t_C10_random_split_exact. Qed.
 Print Assumptions C10_random_split_exact.
+
+(** At flight level (exported for C11 as UPacker.ProofsFlight.flight_datagram_crypto_bound): in
+    every flight built with a QUICRandomFrames / QUICMultiDatagramFrames builder whose spec fits
+    (no CryptoLength; Length > 0, MinPADDING >= 1; header + one CRYPTO frame of maxCryptoData
+    bytes below the packet's maximum), every datagram hands its builder entry ONE contiguous
+    CRYPTO slice (o, n) with 0 < n <= maxCryptoData of that entry at that offset. *)
+Theorem C10_flight_datagram_crypto_bound : forall c helloLen plens k rfs pn pnLen h fs lf pk dl ix rp,
+  c_bk c = BRandom rfs -> rfs <> [] -> random_fits c rfs ->
+  nth_error (flight c helloLen plens) k = Some (DG pn pnLen h fs lf pk dl ix rp) ->
+  exists rf o n, rfFor rfs (Z.of_nat k) = Some rf /\ fs = [(o, n)] /\ 0 <= o /\ 0 < n <= maxCryptoData rf o.
+Proof. exact t_C10_flight_datagram_crypto_bound. Qed.
+Print Assumptions C10_flight_datagram_crypto_bound.
+
+(** Non-vacuity: the Chrome_146 spec fits (for every datagram index and stream offset). *)
+Example C10_random_fits_chrome146 : random_fits (wcfg (BRandom [(1215, 2, 3, 13)]) [1; 2] 0 [] 0) [(1215, 2, 3, 13)].
+Proof. exact t_C10_random_fits_chrome146. Qed.
+Print Assumptions C10_random_fits_chrome146.
 
 (** ... and every way of cutting at most that many bytes into at most max(maxCRYPTO, 1) CRYPTO
     frames inside the slice, with at most maxPING PING frames, totals at most
@@ -551,6 +568,18 @@ Example C10_server_parses_passthrough_example :
   = Some [FramesBase.FCrypto 0 [10; 11]; FramesBase.FCrypto 2 [12; 13; 14]].
 Proof. exact t_C10_server_parses_passthrough_example. Qed.
 Print Assumptions C10_server_parses_passthrough_example.
+
+(** The same for a re-framing builder: C09's wire image of QUICRandomFrames.buildInternal's
+    output, parsed with C08's frame codec, yields exactly the builder's PING and CRYPTO frames
+    (PADDING skipped), and those CRYPTO frames partition the slice [base, base+|data|) with the
+    ClientHello's bytes -- for every draw of both randomness sources. *)
+Theorem C10_server_parses_random : forall (c : Frames.cfg) p data base bs us ws bs' us',
+  rf_wf p -> 0 <= base -> base + zlen data <= maxVarInt8 ->
+  build_internal p data base bs us = UFrames.Model.Ok (ws, bs', us') ->
+  parseAll (S (length ws)) c W_EncryptionInitial (encode ws) = Some (wireFrames ws) /\
+  exact_cover data base ws.
+Proof. exact t_C10_server_parses_random. Qed.
+Print Assumptions C10_server_parses_random.
 
 (** Non-vacuity: the hypotheses hold for the first packet of a concrete flight (nil builder,
     8-byte DCID, no token, 1165 payload bytes) with C05's toy AEAD and mask. *)
